@@ -1,6 +1,6 @@
 (** Pins for C18: the statements written out, so that no theorem is weakened quietly. *)
 From TucModel Require Import Base.Bytes Model.Bounds Model.BoundsParse Model.Opt Model.Args Model.Main
-     Spec.Resolve Spec.Fields Spec.BoundsGrammar Proofs.BoundsFacts Proofs.C06 Proofs.ParseFacts Proofs.C18 Proofs.C18Iff Properties.C18.
+     Spec.Resolve Spec.Fields Spec.BoundsGrammar Proofs.BoundsFacts Proofs.C06 Proofs.ParseFacts Proofs.C18 Proofs.C18Iff Proofs.C18Fmt Proofs.C18Render Properties.C18.
 Local Open Scope Z_scope.
 
 Check C18_integer_iff :
@@ -20,6 +20,24 @@ Check C18_list_structure :
   forall (s : bytes) (u : ublist), existsb is_brace s = false -> parse_ublist s = Some u ->
     exists bs, csv_text s bs /\ items u = mark_last (map Bound bs).
 Print Assumptions C18_list_structure.
+
+Check C18_format_accepted_iff :
+  forall (s : bytes) (its : list bof), scan_format s false [] [] = Some its <-> fmt_items s its.
+Print Assumptions C18_format_accepted_iff.
+
+Check C18_documented_format_is_accepted :
+  forall (s : bytes) (its : list bof), fmt_doc s its -> scan_format s false [] [] = Some its.
+Print Assumptions C18_documented_format_is_accepted.
+
+Check C18_format_list_accepted_iff :
+  forall (s : bytes) (u : ublist), existsb is_brace s = true ->
+    (parse_ublist s = Some u <->
+     exists its, fmt_items s its /\ bounds_only its <> [] /\ from_vec its = Some u).
+Print Assumptions C18_format_list_accepted_iff.
+
+Check C18_literal_text_rendering :
+  forall t : bytes, render_filler t = render_spec t.
+Print Assumptions C18_literal_text_rendering.
 
 Check C18_accepted_bound_is_well_formed :
   forall (s : bytes) (b : ubound), parse_bound s = Some b ->
